@@ -54,3 +54,8 @@ def run(ctx):
         ctx.violation("model-tie", "unproven", {"broken": ctx.broken}, detail="; ".join(ctx.broken)[:500], kind="unproven", broken=ctx.broken)
     ctx.assumptions = ["IDs restricted to int/str/tuple-of-atoms/None", "attribute dict key order is not compared (merge rule 'union' iterates a set of strings)"]
     return finish(ctx, trusted_base=TRUSTED_COMMON)
+
+
+def replay(ctx, path):
+    from ..sm import replay_sm
+    return replay_sm(ctx, MH, "HG", FIELDS, pred_hg, path)
